@@ -295,6 +295,7 @@ def _ia_init_regular(c):
 
 def verify_initasync(run):
     run.verify('InitAsync.init_regular', cls='InitAsync')
+    run.verify('InitAsync.init_async', cls='InitAsync', hooks={'await': awaits({'coro(*args)': await_init_coro})})
 
 
 # ---- ValuePoll._maintask: periodic acquisition of the output value ----------------------------------------------------------------------------------
@@ -375,3 +376,42 @@ def verify_valuepoll(run):
     run.verify('ValuePoll._maintask', cls='ValuePoll', ghost={'phase': 0, 'acquired': Val.VNone}, invariants={'while True': inv_valuepoll},
                calls={'*value*': vp_func_call, 'asyncio.iscoroutine': vp_iscoroutine},
                hooks={'await': awaits({'value': vp_await_value, 'asyncio.sleep(*': vp_await_sleep})})
+
+
+# ---- InitAsync.init_async: the block's output becomes the result of the configured coroutine -----------------------------------------------------------
+declare_fields(_init_coro=VAL)
+coro_app = Function('init_coro_result', Val, Val, Val)        # result of awaiting coro(*args) (user code)
+
+
+def await_init_coro(ex, node, st):
+    """await coro(*args): the user's coroutine function called with the configured arguments"""
+    f = to_val(st.env['coro'], st); a = to_val(st.env['args'], st)
+    ok = st.copy(); ex.emit(ok, rec('await_coro', f, a))
+    for fld in HANDLER_EFFECTS: ok.havoc_field(fld)
+    impose_callee_guarantees(View(st), View(ok))
+    bad = ok.copy(); bad.label('coro:raises'); ca = ok.copy(); ca.label('cancelled')
+    return [(ok, ZV('val', coro_app(f, a))), (bad, Raise(PExc('OtherException', val=Val.Obj(fresh('exc', IntSort())), where='callee'))),
+            (ca, Raise(PExc('CancelledError', val=Val.Obj(fresh('exc', IntSort())), where='callee')))]
+
+
+@contract('InitAsync.init_async', qual='edzed.blocklib.sblocks2:InitAsync.init_async', modifies=HANDLER_EFFECTS, self_cls='InitAsync')
+def _ia_init_async(c):
+    me = c.z('self')
+    ic = c.pre('_init_coro', me); k = Val.tk(ic)
+    c.requires('a_non_empty_sequence', And(Val.is_T(ic), tup_len(k) >= 1))        # checked by InitAsync.__init__
+    c.raises('OtherException', unchanged=False, label='the_coroutine_failed')
+    c.raises('CancelledError', unchanged=False, label='timed_out_or_shut_down')
+    c.raises('ValueError', unchanged=False, label='the_coroutine_returned_undef')
+    c.raises('DeliveryError', unchanged=False, label='delivery_of_an_output_event_failed')
+    if c.verifying:
+        def expected(kk, r, st):
+            fn = z3.simplify(Rec.fn(r)).as_string()
+            if fn == 'await_coro':
+                a = Rec.a0(r); ak = Val.tk(a); j = Int('j!ia')
+                return [('the_configured_coroutine_is_awaited_with_the_configured_arguments',
+                         And(kk == 0, Rec.recv(r) == tup_item(k, 0), Val.is_T(a), tup_len(ak) == tup_len(k) - 1,
+                             ForAll([j], Implies(And(0 <= j, j < tup_len(ak)), tup_item(ak, j) == tup_item(k, j + 1)))))]
+            if fn == 'set_output':
+                return [('the_result_becomes_the_output', And(kk == 1, Rec.recv(r) == Val.Obj(me), Rec.a0(r) == coro_app(tup_item(k, 0), Rec.a0(st.tr[0]))))]
+            return [('no_other_call', BoolVal(False))]
+        c.expect_trace(expected, 2, normal_len=2, predicate=True)
